@@ -834,7 +834,7 @@ def run(ctx):
     base = ctx.seed * 1000003
     tasks = []
     # (1) the option lattice, every element (x seeds), API and CLI alternating
-    reps = 1 if quick else 6
+    reps = 1 if quick else 8
     for n, el in enumerate(lattice):
         for k in range(reps):
             via = "cli" if (n + k) % 2 else "api"
@@ -842,19 +842,19 @@ def run(ctx):
             tasks.append(("run", base + 7 * (n * reps + k) + 1, el["op"], el["thr"], el["renaming"], el["proj"],
                           el["shape"], via, zones))
     # (2) seeded runs outside the lattice: mixed catalogues, rotated headers, float64 / 4-D images
-    for k in range(160 if quick else 3500):
+    for k in range(160 if quick else 4500):
         tasks.append(("run", base + 500000 + k, rng.choice(["subtract", "add", "mask", "mask"]),
                       rng.choice(["frac", "sigma"]), rng.choice(["default", "default", "renamed"]),
                       rng.choice(["SIN", "TAN", "ZEA"]), "mixed", rng.choice(["api", "api", "cli"]), None))
     # (3) one source at a time against the independent renderer, every position class
     zones = ["in"] * 4 + ["near"] * 3 + ["border"] * 2 + ["just"] * 2 + ["off", "far", "sky"]
-    for k in range(800 if quick else 12000):
+    for k in range(800 if quick else 16000):
         tasks.append(("single", base + 600000 + k, zones[k % len(zones)], ["SIN", "TAN", "ZEA"][k % 3]))
     # (4) catalogue subsets
-    for k in range(240 if quick else 4000):
+    for k in range(240 if quick else 5000):
         tasks.append(("additive", base + 700000 + k, ["SIN", "TAN", "ZEA"][k % 3]))
     # (5) find -> subtract
-    for k in range(32 if quick else 600):
+    for k in range(32 if quick else 700):
         tasks.append(("loop", base + 800000 + k, ["csv", "tab"][k % 2], ["api", "cli"][(k // 2) % 2]))
 
     d = os.path.join(ctx.workdir, "files")
